@@ -326,6 +326,7 @@ async fn new_collection(name: &str) -> (AndaDB, Arc<Collection>) {
 
 async fn add(coll: &Collection, v: &Vals) -> u64 {
     let mut d = Document::new(coll.schema());
+    d.set_id(0);
     for (k, fv) in field_map(v) {
         if fv != Fv::Null {
             d.set_field(&k, fv).expect("set_field");
@@ -574,6 +575,7 @@ async fn main() {
     let mut cutting = 0usize; // evaluations whose limit is smaller than the match set
     let mut failures: Vec<Value> = vec![];
     let mut oracle_failures = 0usize;
+    let mut failure_classes: BTreeMap<String, usize> = BTreeMap::new();
     let mut shape: BTreeMap<String, usize> = BTreeMap::new();
     let mut sizes: BTreeMap<usize, usize> = BTreeMap::new();
     let mut dump_problems: Vec<String> = vec![];
@@ -586,7 +588,8 @@ async fn main() {
             build_witness().await
         } else if is_big {
             g.kmax = 40;
-            build_random(&mut g, &format!("big{ci}"), MAX + 60 + g.rng.below(60) as usize).await
+            let n = MAX + 60 + g.rng.below(60) as usize;
+            build_random(&mut g, &format!("big{ci}"), n).await
         } else {
             let n = 1 + g.rng.below(max_docs as u64) as usize;
             g.kmax = 3 + g.rng.below(8) as i64;
@@ -671,7 +674,8 @@ async fn main() {
                     } else {
                         "match-set"
                     };
-                    if failures.len() < 12 {
+                    *failure_classes.entry(class.to_string()).or_default() += 1;
+                    if failures.len() < 12 || (failure_classes[class] == 1 && failures.len() < 24) {
                         failures.push(json!({
                             "class": class,
                             "what": format!("{} returned {:?}, the set-algebra reading gives {:?}", entry_name(e), got, want),
@@ -705,6 +709,7 @@ async fn main() {
         "evaluations": evaluations,
         "cutting_evaluations": cutting,
         "oracle_failures": oracle_failures,
+        "failure_classes": failure_classes,
         "failures": failures,
         "top_level_shapes": shape,
         "collection_sizes": sizes,
